@@ -257,10 +257,19 @@ def post_step(args):
     except Exception as e:
         return ['ERR', canon_err(exc_kind(e))]
 
-def e2e_with(p, root, text, via_dict=False):
-    """parse_to_xml on an existing parser object (or: parse, to_dict, xml_from_dict on its generator) -> masked sx | ['ERR', kind]"""
+def e2e_with(p, root, text, via_dict=False, split=None):
+    """parse_to_xml on an existing parser object (or: parse, to_dict, xml_from_dict on its generator; or, with split = (other parser
+    object or None, [(root, text), ...]): parse, then other parses on the same object - failing or not -, then tree_to_xml of the FIRST
+    tree, on the same or on the other object) -> masked sx | ['ERR', kind]"""
     from . import xmlsx
     try:
+        if split is not None:
+            other, between = split
+            tree = p.parse(text, root)
+            for r2, t2 in between:
+                try: p.parse(t2, r2)
+                except Exception: pass
+            return mask_dates(xmlsx.norm_sx(xmlsx.to_sx((other or p).tree_to_xml(tree))))
         if via_dict:
             tree = p.parse(text, root)
             return mask_dates(xmlsx.norm_sx(xmlsx.to_sx(p.generator.xml_from_dict(tree.to_dict(), getattr(tree, 'is_root', False)))))
